@@ -185,6 +185,14 @@ void hk_ext_stuck(void)
 	}
 }
 
+/* the calling thread is held up for a moment just before the signal is sent (whatever the caller checked before may have changed by
+ * then, unless it holds the lock that the reaper needs) */
+void hk_kill_pre(pid_t pid, int sig)
+{
+	(void)pid; (void)sig;
+	fork_window_delay();
+}
+
 void hk_kill(pid_t pid, int sig, int ret, int err)
 {
 	struct child *c = child_by_pid(pid);
